@@ -105,7 +105,9 @@ class ApplyOp(IRDLOperation):
         )
         if syms is None:
             syms = []
-        return ApplyOp(dims + syms, m)
+        op = ApplyOp(dims + syms, m)
+        op.attributes |= parser.parse_optional_attr_dict()
+        return op
 
     def print(self, printer: Printer):
         m = self.map.data
@@ -126,6 +128,7 @@ class ApplyOp(IRDLOperation):
                 operands[m.num_dims :], lambda el: printer.print_operand(el)
             )
             printer.print_string("]")
+        printer.print_op_attributes(self.attributes)
 
 
 @irdl_op_definition
@@ -336,12 +339,17 @@ def _print_affine_map_of_ssa_ids(
 
 def _parse_affine_memref_access(
     parser: Parser,
+    attributes: dict[str, Attribute] | None = None,
 ) -> tuple[SSAValue[MemRefType], AffineMap, Sequence[SSAValue[IndexType]], MemRefType]:
     """
-    Parses `%memref[<affine-map-of-ssa-ids>] : <type>`.
+    Parses `%memref[<affine-map-of-ssa-ids>] attr-dict : <type>`; the attributes are
+    added to `attributes` if given.
     """
     memref = parser.parse_unresolved_operand()
     affine_map, indices = parser.parse_affine_map_of_ssa_ids()
+    parsed_attributes = parser.parse_optional_attr_dict()
+    if attributes is not None:
+        attributes |= parsed_attributes
     parser.parse_punctuation(":")
     memref_type = parser.parse_type()
 
@@ -361,9 +369,12 @@ def _print_affine_memref_access(
     affine_map: AffineMap,
     indices: Sequence[SSAValue],
     memref_type: Attribute,
+    attributes: dict[str, Attribute] | None = None,
 ) -> None:
     printer.print_ssa_value(memref)
     _print_affine_map_of_ssa_ids(printer, affine_map, indices)
+    if attributes:
+        printer.print_op_attributes(attributes)
     printer.print_string(" : ")
     printer.print_attribute(memref_type)
 
@@ -420,9 +431,14 @@ class StoreOp(IRDLOperation):
     def parse(cls, parser: Parser) -> StoreOp:
         value = parser.parse_unresolved_operand()
         parser.parse_punctuation(",")
-        memref, affine_map, indices, memref_type = _parse_affine_memref_access(parser)
+        attrs: dict[str, Attribute] = {}
+        memref, affine_map, indices, memref_type = _parse_affine_memref_access(
+            parser, attrs
+        )
         resolved_value = parser.resolve_operand(value, memref_type.get_element_type())
-        return StoreOp(resolved_value, memref, indices, AffineMapAttr(affine_map))
+        op = StoreOp(resolved_value, memref, indices, AffineMapAttr(affine_map))
+        op.attributes |= attrs
+        return op
 
     def print(self, printer: Printer):
         printer.print_string(" ")
@@ -430,7 +446,12 @@ class StoreOp(IRDLOperation):
         printer.print_string(", ")
 
         _print_affine_memref_access(
-            printer, self.memref, self.map.data, self.indices, self.memref.type
+            printer,
+            self.memref,
+            self.map.data,
+            self.indices,
+            self.memref.type,
+            self.attributes,
         )
 
 
@@ -480,15 +501,25 @@ class LoadOp(IRDLOperation):
 
     @classmethod
     def parse(cls, parser: Parser) -> LoadOp:
-        memref, affine_map, indices, memref_type = _parse_affine_memref_access(parser)
+        attrs: dict[str, Attribute] = {}
+        memref, affine_map, indices, memref_type = _parse_affine_memref_access(
+            parser, attrs
+        )
         result_type = memref_type.get_element_type()
 
-        return LoadOp(memref, indices, AffineMapAttr(affine_map), result_type)
+        op = LoadOp(memref, indices, AffineMapAttr(affine_map), result_type)
+        op.attributes |= attrs
+        return op
 
     def print(self, printer: Printer):
         printer.print_string(" ")
         _print_affine_memref_access(
-            printer, self.memref, self.map.data, self.indices, self.memref.type
+            printer,
+            self.memref,
+            self.map.data,
+            self.indices,
+            self.memref.type,
+            self.attributes,
         )
 
 
@@ -559,7 +590,8 @@ class VectorLoadOp(IRDLOperation):
 
     @classmethod
     def parse(cls, parser: Parser) -> VectorLoadOp:
-        memref, affine_map, indices, _ = _parse_affine_memref_access(parser)
+        attrs: dict[str, Attribute] = {}
+        memref, affine_map, indices, _ = _parse_affine_memref_access(parser, attrs)
         parser.parse_punctuation(",")
         result_type = parser.parse_type()
 
@@ -569,12 +601,19 @@ class VectorLoadOp(IRDLOperation):
                 + f"but found: {result_type}"
             )
 
-        return VectorLoadOp(memref, indices, AffineMapAttr(affine_map), result_type)
+        op = VectorLoadOp(memref, indices, AffineMapAttr(affine_map), result_type)
+        op.attributes |= attrs
+        return op
 
     def print(self, printer: Printer):
         printer.print_string(" ")
         _print_affine_memref_access(
-            printer, self.memref, self.map.data, self.indices, self.memref.type
+            printer,
+            self.memref,
+            self.map.data,
+            self.indices,
+            self.memref.type,
+            self.attributes,
         )
         printer.print_string(", ")
         printer.print_attribute(self.result.type)
@@ -616,13 +655,16 @@ class VectorStoreOp(IRDLOperation):
     def parse(cls, parser: Parser) -> VectorStoreOp:
         value = parser.parse_unresolved_operand()
         parser.parse_punctuation(",")
-        memref, affine_map, indices, _ = _parse_affine_memref_access(parser)
+        attrs: dict[str, Attribute] = {}
+        memref, affine_map, indices, _ = _parse_affine_memref_access(parser, attrs)
 
         parser.parse_punctuation(",")
         value_type = parser.parse_type()
 
         resolved_value = parser.resolve_operand(value, value_type)
-        return VectorStoreOp(resolved_value, memref, indices, AffineMapAttr(affine_map))
+        op = VectorStoreOp(resolved_value, memref, indices, AffineMapAttr(affine_map))
+        op.attributes |= attrs
+        return op
 
     def print(self, printer: Printer):
         printer.print_string(" ")
@@ -630,7 +672,12 @@ class VectorStoreOp(IRDLOperation):
         printer.print_string(", ")
 
         _print_affine_memref_access(
-            printer, self.memref, self.map.data, self.indices, self.memref.type
+            printer,
+            self.memref,
+            self.map.data,
+            self.indices,
+            self.memref.type,
+            self.attributes,
         )
 
         printer.print_string(", ")
